@@ -13,7 +13,7 @@ package afpacket
 //@   entry row write: [call WritePacketData(s.handle, pkt) as (e)] when ret == e -> exit
 
 //@ func (*Source).ReadPacketData
-//@   props C20 C06 C03 C16 C12
+//@   props C20 C06 C03 C16 C12 C11
 //@   observe ZeroCopyReadPacketData
 //@   entry row read: [call ZeroCopyReadPacketData(s.handle) as (d, ci, e)] when ret0 == d && ret2 == e && ret1 != nil -> exit
 
